@@ -22,11 +22,13 @@ type Gen struct {
 	ndocs      map[string]int       // per segment name: upper bound of doc count
 	curMode    int
 	batchNames []string
+	lineage    map[string]map[string]bool // segment -> base segments it derives from
+	disjoint   bool                       // merge inputs must have pairwise disjoint lineages (vector ids are unique per base segment)
 }
 
 func newGen(seed int64, tier string, w *bufio.Writer) *Gen {
 	return &Gen{r: rand.New(rand.NewSource(seed)), tier: tier, w: w, stats: map[string]int{},
-		univ: map[string]*Universe{}, ndocs: map[string]int{}, curMode: 1026}
+		univ: map[string]*Universe{}, ndocs: map[string]int{}, curMode: 1026, lineage: map[string]map[string]bool{}}
 }
 
 func (g *Gen) emit(format string, a ...interface{}) {
@@ -254,6 +256,7 @@ func (g *Gen) emitBatch(b *BatchSpec) {
 }
 
 func (g *Gen) newBuilt(seg string, b *BatchSpec) {
+	g.lineage[seg] = map[string]bool{seg: true}
 	u := newUniverse()
 	u.addBatch(b)
 	g.univ[seg] = u
@@ -261,6 +264,7 @@ func (g *Gen) newBuilt(seg string, b *BatchSpec) {
 }
 
 func (g *Gen) alias(newSeg, old string) {
+	g.lineage[newSeg] = g.lineage[old]
 	g.univ[newSeg] = g.univ[old]
 	g.ndocs[newSeg] = g.ndocs[old]
 }
@@ -648,7 +652,36 @@ func (g *Gen) genMergeCase(cfgMod func(*batchCfg), dump func(seg string), depth 
 		if k > len(pool) {
 			k = len(pool)
 		}
-		perm := g.r.Perm(len(pool))[:k]
+		perm := g.r.Perm(len(pool))
+		if g.disjoint {
+			var keep []int
+			seen := map[string]bool{}
+			for _, pi := range perm {
+				ok := true
+				for b := range g.lineage[pool[pi]] {
+					if seen[b] {
+						ok = false
+					}
+				}
+				if ok {
+					keep = append(keep, pi)
+					for b := range g.lineage[pool[pi]] {
+						seen[b] = true
+					}
+				}
+			}
+			perm = keep
+		}
+		if k > len(perm) {
+			k = len(perm)
+		}
+		perm = perm[:k]
+		lin := map[string]bool{}
+		for _, pi := range perm {
+			for b := range g.lineage[pool[pi]] {
+				lin[b] = true
+			}
+		}
 		var ins []string
 		var drops []string
 		u := newUniverse()
@@ -680,6 +713,7 @@ func (g *Gen) genMergeCase(cfgMod func(*batchCfg), dump func(seg string), depth 
 		g.emit("open %s %s", m, f)
 		g.univ[m] = u
 		g.ndocs[m] = total
+		g.lineage[m] = lin
 		dump(m)
 		pool = append(pool, m)
 		g.st(fmt.Sprintf("merge.depth%d", lvl+1))
